@@ -324,6 +324,14 @@ def rule_quant(ctx):
                 ('ceil', 'floor', 'round', 'roundup', 'trunc', 'int')]
     builds = [norm(c) for c in U.calls(f.node) if norm(c.func) == 'cls']
     ok = not rounders and f'cls({p})' in builds and f'cls(*{p})' in builds
+    dflt = []
+    for a in walk_local(f.node):
+        if isinstance(a, ast.Assign) and norm(a.value) == 'cls()':
+            tests = [norm(p_.test) for p_ in U.parent_chain(a) if isinstance(p_, ast.If) and U.in_body(a, p_, 'body')]
+            dflt.append(tests[0] if tests else 'unconditional')
+    ctx.ob('C12.play', f'{f.fq}:default-only-for-none', bool(dflt) and all(t == f'{p} is None' for t in dflt),
+           f'the default Quant() is chosen under {dflt}: only `{p} is None` may select it (0 is the documented "no quantisation" and is falsy)',
+           f.node, f.module)
     ctx.ob('C12.play', f'{f.fq}:passes-numbers-through', ok,
            f'as_quant builds its result with {builds}{" and rounds with " + str(rounders) if rounders else ""}: a bare number must be passed on '
            f'as it is (play(r, 0.5) and play(r, Quant(0.5)) must land on the same grid)', f.node, f.module)
@@ -374,6 +382,9 @@ def run(ctx):
 
 
 MUTANTS = [
+    dict(rule='C12.play', name='a quant of 0 is taken for no quant given (seed C05-h)', file='sc3/base/clock.py',
+         old="        if isinstance(quant, cls):\n            pass\n        elif isinstance(quant, (int, float)):",
+         new="        if not quant:\n            quant = cls()\n        elif isinstance(quant, cls):\n            pass\n        elif isinstance(quant, (int, float)):"),
     dict(rule='C12.play', name='a bare fractional quant is rounded up (seed C12-g)', file='sc3/base/clock.py',
          old="        elif isinstance(quant, (int, float)):\n            quant = cls(quant)",
          new="        elif isinstance(quant, (int, float)):\n            quant = cls(quant if quant == float('inf') else bi.ceil(quant))"),
